@@ -38,7 +38,6 @@ import (
 	"runtime"
 	"runtime/debug"
 	"runtime/metrics"
-	"runtime/pprof"
 	"sort"
 	"strconv"
 	"strings"
@@ -1211,8 +1210,8 @@ func concScenarios(tier string) []concScenario {
 	// weights are measured execution counts (used only to balance the shards)
 	add("F1", []int{1, 1}, 1, false, false, -1, 3200)
 	add("F1", []int{1, 1}, 1, false, true, -1, 17100)
-	add("F1", []int{2, 1}, 1, false, false, -1, 31500)
 	if tier != "thorough" {
+		add("F1", []int{2, 1}, 1, false, false, 5, 9000)
 		add("F1", []int{2, 2}, 1, false, false, 4, 5700)
 		add("F1", []int{2, 2}, 1, false, true, 4, 12600)
 		add("F1", []int{3, 3}, 1, false, false, 4, 20900)
@@ -1227,21 +1226,22 @@ func concScenarios(tier string) []concScenario {
 		add("F3", []int{0, 0}, 0, true, false, 3, 8000)
 		return out
 	}
-	add("F1", []int{2, 1}, 1, false, true, -1, 200000)
-	add("F1", []int{2, 2}, 1, false, false, -1, 400000)
-	add("F1", []int{2, 2}, 1, false, true, 6, 200000)
-	add("F1", []int{3, 3}, 1, false, false, 5, 150000)
-	add("F1", []int{3, 3}, 1, false, true, 5, 300000)
-	add("F1", []int{4, 4}, 1, false, true, 4, 150000)
-	add("F1", []int{2, 2, 2}, 1, false, false, 4, 135000)
-	add("F1", []int{2, 2, 2}, 1, false, true, 4, 250000)
-	add("F1", []int{3, 3, 3}, 1, false, true, 3, 80000)
+	add("F1", []int{2, 1}, 1, false, false, -1, 31500)
+	add("F1", []int{2, 1}, 1, false, true, -1, 353000)
+	add("F1", []int{2, 2}, 1, false, false, -1, 724000)
+	add("F1", []int{2, 2}, 1, false, true, 6, 188000)
+	add("F1", []int{3, 3}, 1, false, false, 5, 108000)
+	add("F1", []int{3, 3}, 1, false, true, 5, 326000)
+	add("F1", []int{4, 4}, 1, false, true, 4, 133000)
+	add("F1", []int{2, 2, 2}, 1, false, false, 4, 134000)
+	add("F1", []int{2, 2, 2}, 1, false, true, 4, 307000)
+	add("F1", []int{3, 3, 3}, 1, false, true, 3, 57000)
 	add("F2", []int{2, 2}, 0, true, true, 3, 64000)
-	add("F2", []int{2, 2}, 4, true, true, 3, 250000)
-	add("F2", []int{0, 3}, 4, true, true, 3, 200000)
-	add("F2", []int{2, 1, 2}, 0, true, true, 3, 400000)
-	add("F2", []int{2, 1, 2}, 4, true, true, 2, 31000)
-	add("F3", []int{0, 0}, 0, true, false, -1, 600000)
+	add("F2", []int{2, 2}, 4, true, true, 3, 420000)
+	add("F2", []int{0, 3}, 4, true, true, 3, 320000)
+	add("F2", []int{2, 1, 2}, 0, true, true, 3, 800000)
+	add("F2", []int{2, 1, 2}, 4, true, true, 2, 46000)
+	add("F3", []int{0, 0}, 0, true, false, 5, 250000)
 	add("F3", []int{0, 0}, 0, true, false, 4, 36000)
 	return out
 }
@@ -1440,6 +1440,7 @@ func concPart(out *shardOut, scen []concScenario, shard, nshards int, deadline t
 			return nviol < 20
 		}
 		cfg := vrt.Config{MaxPoints: 100000}
+		tsc := time.Now()
 		st := exploreAfterMarker(cfg, sc.Bound, body, deadline, visit)
 		if st.EngineError != "" {
 			fmt.Fprintln(os.Stderr, "ENGINE ERROR:", st.EngineError)
@@ -1457,7 +1458,7 @@ func concPart(out *shardOut, scen []concScenario, shard, nshards int, deadline t
 			out.Incomplete = fmt.Sprintf("concurrent scenario %q stopped early (deadline or violation cap) after %d executions", sc.Name, st.Execs)
 		}
 		out.Samples = append(out.Samples, map[string]interface{}{"part": "conc", "scenario": sc.Name, "bound": sc.Bound, "interleavings": st.Execs,
-			"distinct_wire_orders": st.DistinctLogs, "max_choices": st.MaxChoices, "exhaustive_within_bound": st.Exhaustive})
+			"distinct_wire_orders": st.DistinctLogs, "max_choices": st.MaxChoices, "exhaustive_within_bound": st.Exhaustive, "seconds": time.Since(tsc).Seconds()})
 		for k := range states {
 			out.States = append(out.States, "conc:"+k)
 		}
@@ -1826,11 +1827,6 @@ func main() {
 		if os.Getenv("C19_PROCS") == "" {
 			runtime.GOMAXPROCS(1) // baton passing between goroutines is much cheaper on one P
 		}
-		if pf := os.Getenv("C19_CPUPROFILE"); pf != "" {
-			f, _ := os.Create(pf)
-			pprof.StartCPUProfile(f)
-			defer pprof.StopCPUProfile()
-		}
 		debug.SetGCPercent(400)
 		t0 := time.Now()
 		dl := time.Now().Add(40 * time.Second)
@@ -1838,7 +1834,7 @@ func main() {
 			dl = time.Now().Add(time.Duration(v) * time.Second)
 		}
 		if tier == "thorough" {
-			dl = time.Now().Add(9 * time.Minute)
+			dl = time.Now().Add(11 * time.Minute)
 		}
 		if os.Getenv("C19_SKIP_CONC") == "" {
 			concPart(out, scen, i, n, dl)
@@ -1851,7 +1847,6 @@ func main() {
 		out.Counters["rt_ms_sum"] = time.Since(t1).Milliseconds()
 		b, _ := json.Marshal(out)
 		os.WriteFile(os.Getenv("VERIF_SHARD_OUT"), b, 0o644)
-		pprof.StopCPUProfile()
 		return
 	}
 	rep := lib.NewReport("C19", "model_checking")
@@ -1862,7 +1857,7 @@ func main() {
 	var rdWall float64
 	rdDone := make(chan struct{})
 	go func() {
-		rd = readerPart(rep, tier, 8)
+		rd = readerPart(rep, tier, 16)
 		rdWall = time.Since(tr).Seconds()
 		close(rdDone)
 	}()
